@@ -464,6 +464,11 @@ func (e *Env) ident(name string) Val {
 		}
 	}
 	if v, ok := e.vars[name]; ok {
+		if v.S == "$addr" {
+			pv := v
+			pv.S = "Ref"
+			return e.g.load(e.st, pv)
+		}
 		return v
 	}
 	if name == "nil" {
@@ -743,7 +748,7 @@ func (e *Env) call(x ECall) Val {
 		}
 		es := vs[0].S
 		w.elemSorts[es] = true
-		return Val{T: "((as mk_slc (Slc " + es + ")) (store (store ((as const (Array Int " + es + ")) " + w.zeroSort(es) + ") 0 " + vs[0].T + ") 1 " + vs[1].T + ") 2)", S: "(Slc " + es + ")"}
+		return Val{T: "((as mk_slc (Slc " + es + ")) (store (store " + w.constArr("Int", es) + " 0 " + vs[0].T + ") 1 " + vs[1].T + ") 2)", S: "(Slc " + es + ")"}
 	case "snoc":
 		// snoc(s, x): s with x appended (the term append produces for a one-element addition)
 		vs := args()
@@ -764,7 +769,7 @@ func (e *Env) call(x ECall) Val {
 			e.fail("emptymap(mapvalue)")
 		}
 		ks, es := splitArraySort("(Array " + v.S[len("(MapV "):])
-		return Val{T: "(mk_map ((as const (Array " + ks + " Bool)) false) ((as const (Array " + ks + " " + es + ")) " + w.zeroSort(es) + "))", S: v.S}
+		return Val{T: "(mk_map ((as const (Array " + ks + " Bool)) false) " + w.constArr(ks, es) + ")", S: v.S}
 	case "str":
 		// str(b): the string with the bytes of the []byte b
 		v := e.tr(x.Args[0])
